@@ -291,7 +291,7 @@ def run_shard(ctx):
             for lab in bad:
                 if lab is None:
                     continue
-                for where in ('start', 'end', 'period'):
+                for where in ('start', 'end', 'period', 'start+', 'end+'):
                     scripts = random_scripts(rng, n)
                     A = make(Model, spec, scripts, 0.5)
                     before = snapshot(A)
@@ -299,6 +299,13 @@ def run_shard(ctx):
                     ctx.evaluation(case, nontrivial=True)
                     if where == 'period':
                         r = call(A.solve_period, lab, failures='ignore')
+                    elif where.endswith('+'):
+                        # ... with a perfectly good label at the other end (each end is looked up on its own)
+                        good = spec.labels[0][0] if where == 'end+' else spec.labels[-1][0]
+                        if good is None:
+                            continue
+                        ctx.count('label_errors_with_a_good_other_end')
+                        r = call(A.solve, **{where[:-1]: lab, ('start' if where == 'end+' else 'end'): good}, failures='ignore')
                     else:
                         r = call(A.solve, **{where: lab}, failures='ignore')
                     ctx.count('label_errors_checked')
